@@ -5,7 +5,9 @@
 (* query).  Path segments are tokens: "a" "b" are names, "." ".." "" (an   *)
 (* empty segment = a duplicate slash) are what normalisation removes,      *)
 (* "a|b" contains the character the pinned key function joins its fields   *)
-(* with, "a%7Cb" is its percent-encoded spelling.                          *)
+(* with, "a%7Cb" is its percent-encoded spelling; "a%3Fb" is a name that   *)
+(* contains an encoded "?" (so "/a%3Fb" and "/a?b" differ by a character   *)
+(* moved across the path/query boundary).                                  *)
 (*                                                                         *)
 (* Strict(req): the identity under which requests MUST share an entry      *)
 (*   (same method, host compared case-insensitively, same path up to       *)
@@ -21,7 +23,7 @@ EXTENDS Integers, Sequences, FiniteSets, TLC, Json, IOUtils, SequencesExt
 CONSTANTS Methods, Hosts, Segs, LastSegs, Queries, MaxSegs, CaseFile, ResultFile
 
 Lower(h) == CASE h = "H.EXAMPLE" -> "h.example" [] h = "Other.Example" -> "other.example" [] OTHER -> h
-Decode(s) == CASE s = "a%7Cb" -> "a|b" [] s = "%61" -> "a" [] OTHER -> s
+Decode(s) == CASE s = "a%7Cb" -> "a|b" [] s = "%61" -> "a" [] s = "a%3Fb" -> "a?b" [] OTHER -> s
 
 RECURSIVE Norm(_, _)
 \* remove dot segments and empty segments (duplicate slashes) from a segment sequence
